@@ -201,9 +201,20 @@ func NormalizeIdentity(tID *Identity, altCodes ...l10n.Code) {
 	}
 	code := strings.ToUpper(tID.Code.String())
 	code = IdentityCodeBadCharsRegexp.ReplaceAllString(code, "")
-	code = strings.TrimPrefix(code, string(tID.Country))
+	// Remove the country prefixes until none is left, so that normalising
+	// an already normalised code changes nothing.
+	prefixes := []string{string(tID.Country)}
 	for _, alt := range altCodes {
-		code = strings.TrimPrefix(code, string(alt))
+		prefixes = append(prefixes, string(alt))
+	}
+	for trimmed := true; trimmed; {
+		trimmed = false
+		for _, p := range prefixes {
+			if p != "" && strings.HasPrefix(code, p) {
+				code = code[len(p):]
+				trimmed = true
+			}
+		}
 	}
 	tID.Code = cbc.Code(code)
 }
